@@ -145,8 +145,8 @@ PROPS = {
     ),
     'C16': dict(
         title='no mutation, even on failure', proj='proj_full', oracle='c16',
-        quick=[S_('cleanup'), S_('faults'), S_('alias', count=6000)],
-        thorough=[S_('cleanup'), S_('faults'), S_('alias', count=60000)],
+        quick=[S_('cleanup'), S_('faults'), S_('alias', count=6000), S_('probes_c16', nc=1)],
+        thorough=[S_('cleanup'), S_('faults'), S_('alias', count=60000), S_('probes_c16', nc=1)],
         runtime_part='which calls cross into outside code (the injector patches inspect.signature, inspect.getsource, ast.parse, user forgers and attribute getters), real attribute storage',
         level_text='cleanup_functools_wrapper + the as_forged guard are a step machine with a crash possible at every outside call: "attributes and guard are restored for every crash '
                    'point" is a theorem; the real context manager is compared with the model for every store shape x crash point, whole retrievals are run with an exception injected at '
